@@ -81,6 +81,10 @@ def build(ct):
     s.open_result = call(lambda: dds.set_store("dbfs", internal_dir="dbfs:/int", data_dir="dbfs:/data", dbutils=s.db, commit_type=ct))
     s.x = 0
     s.committed = {}   # path -> (fn name, x)
+    # a second live store object on the same DBFS (another notebook / cluster); ("switch",) makes the other one current
+    import dds._api as api
+    s.stores = [api._store_var, None]
+    s.cur = 0
     return s
 
 
@@ -149,6 +153,22 @@ def apply(s, op):
             f"set_store('dbfs', commit_type={s.ct!r}) -> {s.open_result}")
         return probs
     k = op[0]
+    if k == "switch":
+        import dds._api as api
+        s.stores[s.cur] = api._store_var
+        s.cur = 1 - s.cur
+        if s.stores[s.cur] is None:
+            dds.set_store("dbfs", internal_dir="dbfs:/int", data_dir="dbfs:/data", dbutils=s.db, commit_type=s.ct)
+            s.stores[s.cur] = api._store_var
+        else:
+            dds.set_store(s.stores[s.cur])
+        return probs
+    if k == "wipe_data_dir":
+        # somebody cleans the data directory behind the store's back: the next keep has to re-create records and copies
+        for f in [f for f in s.db.fs.files if f.startswith("dbfs:/data")]:
+            del s.db.fs.files[f]
+        s.committed = {}
+        return probs
     if k == "set":
         s.x = op[1]
         s.mod.X = op[1]
@@ -195,11 +215,17 @@ def key(s):
         files.append((k_, v))
     import dds._api as api
     from ..seqmc.models import canon
-    hidden = canon({k_: v for k_, v in vars(api._store_var).items() if k_ not in ("_dbutils", "_registry")}) if api._store_var is not None else None
-    return (s.x, tuple(sorted(s.committed.items())), tuple(files), hidden)
+    def hid(st):
+        return canon({k_: v for k_, v in vars(st).items() if k_ not in ("_dbutils", "_registry")}) if st is not None else None
+    stores = list(getattr(s, "stores", [api._store_var, None]))
+    stores[getattr(s, "cur", 0)] = api._store_var
+    return (s.x, tuple(sorted(s.committed.items())), tuple(files), getattr(s, "cur", 0), tuple(hid(st) for st in stores))
 
 
 ALPHA = [("keep", "a"), ("keep", "b"), ("eval",), ("set", 0), ("set", 1), ("load", "/p/a"), ("load", "/q/y/z"), ("load", "/p/b"), ("load", "/q/x")]
+
+
+ALPHA2 = [("keep", "a"), ("set", 0), ("set", 1), ("switch",), ("wipe_data_dir",), ("load", "/p/a")]
 
 
 def _job(items):
@@ -207,8 +233,11 @@ def _job(items):
     time.time = lambda: 1.6e9
     out = []
     for ct, depth in items:
-        st = bfs.explore(ALPHA, lambda: build(ct), apply, key, depth, teardown=teardown)
-        out.append(dict(ct=ct, depth=depth, states=st.states, transitions=st.transitions, closed=st.closed, samples=st.samples[:2],
+        two = isinstance(ct, tuple)
+        if two:
+            ct = ct[1]
+        st = bfs.explore(ALPHA2 if two else ALPHA, lambda: build(ct), apply, key, depth, teardown=teardown)
+        out.append(dict(ct=("two_stores:" + str(ct)) if two else ct, depth=depth, states=st.states, transitions=st.transitions, closed=st.closed, samples=st.samples[:2],
                         problems=[(list(h), list(o), p) for h, o, p in st.problems[:100]]))
     return out
 
@@ -326,7 +355,9 @@ def apply_raw(s, op):
 def run(tier, seed):
     res = Result(P, "model_checking")
     depth = 5 if tier == "quick" else 7
-    outs = pool.pmap(_job, [(ct, depth if ct in (None, "full", "links_only", "none") else 2) for ct in SPELLINGS], chunk=1)
+    jobs = [(ct, depth if ct in (None, "full", "links_only", "none") else 2) for ct in SPELLINGS]
+    jobs += [(("two_stores", ct), 7 if tier == "quick" else 9) for ct in ("full", "links_only")]
+    outs = pool.pmap(_job, jobs, chunk=1)
     states = trans = 0
     per = []
     for o in outs:
@@ -334,7 +365,7 @@ def run(tier, seed):
         trans += o["transitions"]
         per.append({k: o[k] for k in ("ct", "depth", "states", "transitions", "closed")})
         for h, op, p in o["problems"]:
-            res.violations.append(Violation(P, p[0], f"after {h}: {p[1]}", {"mode": "seq", "ct": o["ct"], "ops": h + [op]}))
+            res.violations.append(Violation(P, p[0], f"after {h}: {p[1]}", {"mode": "seq", "ct": str(o["ct"]).replace("two_stores:", "") if o["ct"] is not None else None, "ops": h + [op]}))
     n_leg = len(legacy_cases())
     for i in range(n_leg):
         for k, w in check_legacy(i):
